@@ -155,6 +155,35 @@ func extractLink(repo string, o *out) {
 	}
 	o.emit("link_unregistered_only_by_writer", "", "bool", unreg, "true", "", "")
 
+	// reader_closes_only_its_input: ToxicLink.read copies the source into the chain and then closes the chain's input - it closes nothing
+	// else (not the destination) and waits for nothing (no timer, no select): the end of the stream reaches the receiver only through
+	// the chain, behind the data
+	rdr := ""
+	if fd := p.method("ToxicLink", "read"); fd != nil && fd.Body != nil {
+		closes, other, waits := 0, false, false
+		ast.Inspect(fd.Body, func(n ast.Node) bool {
+			switch x := n.(type) {
+			case *ast.CallExpr:
+				f := show(fs, x.Fun)
+				if strings.HasSuffix(f, ".Close") {
+					if f == "link.input.Close" {
+						closes++
+					} else {
+						other = true
+					}
+				}
+				if strings.HasPrefix(f, "time.") {
+					waits = true
+				}
+			case *ast.SelectStmt, *ast.GoStmt:
+				waits = true
+			}
+			return true
+		})
+		rdr = boolS(closes == 1 && !other && !waits)
+	}
+	o.emit("reader_closes_only_its_input", "", "bool", rdr, "true", "", "")
+
 	// ---- per-connection toxic state (limit_data's byte counter) is created for NEW stubs only: NewState() is reached from Start
 	// (every stub is new) and from AddToxic for the stub it appends (index i := len(link.stubs)), never from the restarts of
 	// existing stubs in AddToxic / UpdateToxic / RemoveToxic, directly or through a helper method
